@@ -338,7 +338,7 @@ func c01StaticCheck(c *Ctx, cases []c01StaticCase, stream string, reported map[s
 		if rep.frag {
 			r.hist("static:" + stream + ":inside-proved-fragment")
 			if strings.Contains(rep.kinds, "R") {
-				r.hist("static:" + stream + ":inside-proved-fragment with map calls of run-time size (given the recorded index sets)")
+				r.hist("static:" + stream + ":inside-proved-fragment with map calls of run-time size (given the recorded index sets) or in typed-map mode")
 			}
 			if strings.Contains(rep.kinds, "E") {
 				r.hist("static:" + stream + ":inside-proved-fragment with run-time disabled controls (modulo dnull->null)")
